@@ -252,32 +252,107 @@ Definition read_rest (s : list ch) (ln : Z) : tok * list ch * Z :=
   let '(s4, ln4) := skip_space s3 ln3 in
   (TRest dir len, s4, ln4).
 
+(* ---- read_arg_int_array / read_arg_value_int_array with literal values (a nested parenthesised list is outside the model) ---- *)
+Fixpoint read_int_array_loop (fuel : nat) (tb : Z) (s : list ch) (ln : Z) : res (list Z * list ch * Z) :=
+  match fuel with
+  | O => OutOfFuel
+  | S f =>
+      let '(s0, ln0) := skip_space s ln in
+      do r <- read_arg_value (arg_fuel s0) tb s0 ln0;
+      let '(v, s1, ln1) := r in
+      match v with
+      | ANone => Ok ([], s1, ln1)
+      | AInt z =>
+          let '(s2, ln2) := skip_space s1 ln1 in
+          if eq_char s2 44 then
+            do r2 <- read_int_array_loop f tb (tl s2) ln2;
+            let '(vs, s3, ln3) := r2 in Ok (z :: vs, s3, ln3)
+          else Ok ([z], s2, ln2)
+      end
+  end.
+(* without '(' or '=' the value is SValue::None, whose to_int_array() is [0] *)
+Definition read_arg_int_array (tb : Z) (s : list ch) (ln : Z) : res (list Z * list ch * Z) :=
+  let '(s1, ln1) := skip_space s ln in
+  if eq_char s1 40 then
+    do r <- read_int_array_loop (S (length s1)) tb (tl s1) ln1;
+    let '(vs, s2, ln2) := r in
+    let '(s3, ln3) := skip_space s2 ln2 in
+    Ok (vs, (if eq_char s3 41 then tl s3 else s3), ln3)
+  else if eq_char s1 61 then read_int_array_loop (S (length s1)) tb (tl s1) ln1
+  else Ok ([0], s1, ln1).
+
+(* the word after the '.' of a reservation *)
+Definition is_w (w : list ch) (a b : string) : bool := list_eqb w (zs a) || list_eqb w (zs b).
+
 Definition read_plain_value (tb : Z) (s : list ch) (ln : Z) : res (Z * list ch * Z) :=
-  if eq_char s c_DOT then Unsupported U_DOTCMD
-  else do r <- read_arg_value (arg_fuel s) tb s ln; let '(v, s1, ln1) := r in Ok (aval_to_i v, s1, ln1).
+  do r <- read_arg_value (arg_fuel s) tb s ln; let '(v, s1, ln1) := r in Ok (aval_to_i v, s1, ln1).
 
-Definition read_length (s : list ch) (ln : Z) : res (tok * list ch * Z) :=
-  if eq_char s c_DOT then Unsupported U_DOTCMD
-  else let '(len, s1, ln1) := get_note_length s ln in Ok (TLength len, s1, ln1).
+(* the `.Random / .onTime / .onNote / .onCycle` part shared by v q t o (l differs): `on_time` says what `.onTime`
+   means for this command (None = the word is not recognised by this reader).  Result None = no reservation word was
+   recognised: the plain reader goes on at the returned cursor (after the word). *)
+Definition read_dot_res (w : Reserve.which) (on_time : option (list Z -> option tok)) (tb : Z) (s : list ch) (ln : Z)
+  : res (option (option tok) * list ch * Z) :=
+  let '(cmd, s1) := get_word s in
+  if list_eqb cmd (zs "Random") then
+    do r <- read_arg_value (arg_fuel s1) tb s1 ln; let '(v, s2, ln2) := r in
+    Ok (Some (Some (TRandom w (aval_to_i v))), s2, ln2)
+  else if is_w cmd "onTime" "T" && (match on_time with Some _ => true | None => false end) then
+    do r <- read_arg_int_array tb s1 ln; let '(ia, s2, ln2) := r in
+    Ok (Some (match on_time with Some f => f ia | None => None end), s2, ln2)
+  else if is_w cmd "onNote" "N" then
+    do r <- read_arg_int_array tb s1 ln; let '(ia, s2, ln2) := r in Ok (Some (Some (TOnNote w false ia)), s2, ln2)
+  else if is_w cmd "onCycle" "C" then
+    do r <- read_arg_int_array tb s1 ln; let '(ia, s2, ln2) := r in Ok (Some (Some (TOnNote w true ia)), s2, ln2)
+  else Ok (None, s1, ln).
 
-Definition read_octave (tb : Z) (s : list ch) (ln : Z) : res (tok * list ch * Z) :=
-  do r <- read_plain_value tb s ln; let '(v, s1, ln1) := r in Ok (TOctave v, s1, ln1).
+Definition read_length (tb : Z) (s : list ch) (ln : Z) : res (option tok * list ch * Z) :=
+  let plain (s0 : list ch) (ln0 : Z) : res (option tok * list ch * Z) :=
+    let '(len, s1, ln1) := get_note_length s0 ln0 in Ok (Some (TLength len), s1, ln1) in
+  if eq_char s c_DOT then
+    let '(cmd, s1) := get_word (tl s) in
+    if list_eqb cmd (zs "Random") || is_w cmd "onTime" "T" then
+      (* "not supported": the array is read, an Empty token is returned *)
+      do r <- read_arg_int_array tb s1 ln; let '(_, s2, ln2) := r in Ok (None, s2, ln2)
+    else if is_w cmd "onNote" "N" then
+      do r <- read_arg_int_array tb s1 ln; let '(ia, s2, ln2) := r in Ok (Some (TOnNote Reserve.WL false ia), s2, ln2)
+    else if is_w cmd "onCycle" "C" then
+      do r <- read_arg_int_array tb s1 ln; let '(ia, s2, ln2) := r in Ok (Some (TOnNote Reserve.WL true ia), s2, ln2)
+    else plain s1 ln
+  else plain s ln.
 
-Definition read_qlen (tb : Z) (s : list ch) (ln : Z) : res (tok * list ch * Z) :=
-  if prefixb [43; 43] s then Ok (TQLenRel 1, skipn 2 s, ln)
-  else if prefixb [45; 45] s then Ok (TQLenRel (-1), skipn 2 s, ln)
+(* the common tail of read_octave / read_qlen / read_velocity / read_timing *)
+Definition read_res_or_value (w : Reserve.which) (on_time : option (list Z -> option tok)) (mk : Z -> tok)
+  (tb : Z) (s : list ch) (ln : Z) : res (option tok * list ch * Z) :=
+  let plain (s0 : list ch) (ln0 : Z) : res (option tok * list ch * Z) :=
+    do r <- read_plain_value tb s0 ln0; let '(v, s1, ln1) := r in Ok (Some (mk v), s1, ln1) in
+  if eq_char s c_DOT then
+    do d <- read_dot_res w on_time tb (tl s) ln;
+    let '(o, s1, ln1) := d in
+    match o with
+    | Some ot => Ok (ot, s1, ln1)
+    | None => plain s1 ln1
+    end
+  else plain s ln.
+
+Definition read_octave (tb : Z) (s : list ch) (ln : Z) : res (option tok * list ch * Z) :=
+  read_res_or_value Reserve.WO (Some (fun _ => None)) TOctave tb s ln.
+
+Definition read_qlen (tb : Z) (s : list ch) (ln : Z) : res (option tok * list ch * Z) :=
+  if prefixb [43; 43] s then Ok (Some (TQLenRel 1), skipn 2 s, ln)
+  else if prefixb [45; 45] s then Ok (Some (TQLenRel (-1)), skipn 2 s, ln)
   else if eq_char s 95 then Unsupported U_SUBVEL
-  else do r <- read_plain_value tb s ln; let '(v, s1, ln1) := r in Ok (TQLen v, s1, ln1).
+  else read_res_or_value Reserve.WQ (Some (fun _ => None)) TQLen tb s ln.
 
-Definition read_velocity (tb : Z) (s : list ch) (ln : Z) : res (tok * list ch * Z) :=
-  if prefixb [43; 43] s then Ok (TVelocityRel 1, skipn 2 s, ln)
-  else if prefixb [45; 45] s then Ok (TVelocityRel (-1), skipn 2 s, ln)
+Definition read_velocity (tb : Z) (s : list ch) (ln : Z) : res (option tok * list ch * Z) :=
+  if prefixb [43; 43] s then Ok (Some (TVelocityRel 1), skipn 2 s, ln)
+  else if prefixb [45; 45] s then Ok (Some (TVelocityRel (-1)), skipn 2 s, ln)
   else if eq_char s 95 then Unsupported U_SUBVEL
-  else do r <- read_plain_value tb s ln; let '(v, s1, ln1) := r in Ok (TVelocity v (-1), s1, ln1).
+  else read_res_or_value Reserve.WV (Some (fun ia => Some (TVOnTime ia))) (fun v => TVelocity v (-1)) tb s ln.
 
-Definition read_timing (tb : Z) (s : list ch) (ln : Z) : res (tok * list ch * Z) :=
+(* t has no .onTime form: the word falls through to the plain reader *)
+Definition read_timing (tb : Z) (s : list ch) (ln : Z) : res (option tok * list ch * Z) :=
   if eq_char s 95 then Unsupported U_SUBVEL
-  else do r <- read_plain_value tb s ln; let '(v, s1, ln1) := r in Ok (TTiming v, s1, ln1).
+  else read_res_or_value Reserve.WT None TTiming tb s ln.
 
 Definition read_loop (tb : Z) (s : list ch) (ln : Z) : res (tok * list ch * Z) :=
   let '(s1, ln1) := skip_space s ln in
@@ -470,17 +545,39 @@ Definition oz (o : option Z) : Z := match o with Some v => v | None => 0 end.
 (* the result of a reader that may produce no token (an Empty / Error token of the code) and may write a log entry *)
 Definition rd_out := (option tok * list ch * Z * lexstate)%type.
 
-(* read_command_cc(no): `M(v)` `V=v` ...; the value is what exec_value leaves: one argument, 0 when it is empty *)
+(* read_command_cc(no): `M(v)` `V=v` ...; the value is what exec_value leaves: one argument, 0 when it is empty.
+   `.onTime/.T .onNote/.N .Frequency .onNoteWave/.W` are reservations, `.onNoteWaveEx/.WE .onCycle/.C .Sine .onNoteSine` are
+   read and answered with a warning; any other word after the '.' is skipped. *)
+Definition cc_warn (ls : lexstate) (ln : Z) (what : string) : lexstate :=
+  lx_add_log ls (zs "[WARN](" ++ show_int ln ++ zs ") not supported : " ++ zs what).
 Definition read_command_cc (ls : lexstate) (no : Z) (s : list ch) (ln : Z) : res rd_out :=
-  if eq_char s c_DOT then Unsupported U_DOTCMD
-  else
-    let s1 := if eq_char s 61 then tl s else s in
+  let tb := lx_timebase ls in
+  let plain (s0 : list ch) : res rd_out :=
+    let s1 := if eq_char s0 61 then tl s0 else s0 in
     do ra <- read_args_tokens ls s1 ln;
     let '(vs, s2, ln2, ls') := ra in
     match vs with
     | [o] => Ok (Some (TCC no (oz o)), s2, ln2, ls')
     | _ => Unsupported U_UPPER
-    end.
+    end in
+  let arr (s0 : list ch) (k : list Z -> Z -> rd_out) : res rd_out :=
+    do r <- read_arg_int_array tb s0 ln; let '(ia, s2, ln2) := r in
+    let '(ot, _, _, ls') := k ia ln2 in Ok (ot, s2, ln2, ls') in
+  if eq_char s c_DOT then
+    let '(cmd, s1) := get_word (tl s) in
+    if is_w cmd "onTime" "T" then arr s1 (fun ia _ => (Some (TCCOnTime no ia), [], 0, ls))
+    else if is_w cmd "onNote" "N" then arr s1 (fun ia _ => (Some (TCCOnNote no ia), [], 0, ls))
+    else if list_eqb cmd (zs "Frequency") then
+      do r <- read_arg_value (arg_fuel s1) tb s1 ln; let '(v, s2, ln2) := r in
+      Ok (Some (TCCFreq (aval_to_i v)), s2, ln2, ls)
+    else if is_w cmd "onNoteWave" "W" then arr s1 (fun ia _ => (Some (TCCOnNoteWave no ia), [], 0, ls))
+    else if is_w cmd "onNoteWaveEx" "WE" then arr s1 (fun _ ln2 => (None, [], 0, cc_warn ls ln2 "onNoteWaveEx"))
+    else if is_w cmd "onNoteWaveR" "WR" then Unsupported U_DOTCMD      (* the warning prints the value with {:?} *)
+    else if is_w cmd "onCycle" "C" then arr s1 (fun _ ln2 => (None, [], 0, cc_warn ls ln2 "onCycle"))
+    else if list_eqb cmd (zs "Sine") then arr s1 (fun _ ln2 => (None, [], 0, cc_warn ls ln2 "Sine"))
+    else if list_eqb cmd (zs "onNoteSine") then arr s1 (fun _ ln2 => (None, [], 0, cc_warn ls ln2 "onNoteSine"))
+    else plain s1
+  else plain s.
 
 (* read_cc(ch): `y<no>,<value>` (is_c = false) and `CC(no,value)` (is_c = true) *)
 Definition read_cc (ls : lexstate) (is_c : bool) (s : list ch) (ln : Z) : res rd_out :=
@@ -503,10 +600,37 @@ Definition read_cc (ls : lexstate) (is_c : bool) (s : list ch) (ln : Z) : res rd
           else Ok (Some (TCC no z), s5, ln5, ls)
       end.
 
-(* read_pitch_bend_small (big = 0) / read_command_pitch_bend_big (big = 1) *)
+(* read_pitch_bend_small (big = 0) / read_command_pitch_bend_big (big = 1); `.onTime` / `.T` are tested as prefixes *)
 Definition read_pitch_bend (big : Z) (tb : Z) (s : list ch) (ln : Z) : res (tok * list ch * Z) :=
-  if prefixb (zs ".onTime") s || prefixb (zs ".T") s then Unsupported U_DOTCMD
+  if prefixb (zs ".onTime") s || prefixb (zs ".T") s then
+    let s0 := if prefixb (zs ".onTime") s then skipn 7 s else skipn 2 s in
+    do r <- read_arg_int_array tb s0 ln; let '(ia, s1, ln1) := r in Ok (TPBOnTime big ia, s1, ln1)
   else do r <- read_arg_value (arg_fuel s) tb s ln; let '(v, s1, ln1) := r in Ok (TPitchBend big (aval_to_i v), s1, ln1).
+
+(* read_fadein(dir): Expression ramps over `arg` whole notes, computed at lex time *)
+Definition read_fadein (dir : Z) (tb : Z) (s : list ch) (ln : Z) : res (tok * list ch * Z) :=
+  do r <- read_arg_value (arg_fuel s) tb s ln; let '(v, s1, ln1) := r in
+  let len := tb * 4 * aval_to_i v in
+  Ok (TCCOnTime 11 (if dir >=? 1 then [0; 127; len] else [127; 0; len]), s1, ln1).
+
+(* read_decres(dir): Cresc / Decresc [=] len [, v1 [, v2]] *)
+Definition read_decres (dir : Z) (tb : Z) (s : list ch) (ln : Z) : res (tok * list ch * Z) :=
+  let '(s1, ln1) := skip_space s ln in
+  let s2 := if eq_char s1 61 then tl s1 else s1 in
+  let '(len, s3, ln3) := get_note_length s2 ln1 in
+  let '(s4, ln4) := skip_space s3 ln3 in
+  let d1 := if dir <? 0 then 127 else 40 in
+  let d2 := if dir <? 0 then 40 else 127 in
+  if eq_char s4 44 then
+    let '(s5, ln5) := skip_space (tl s4) ln4 in
+    do r <- read_arg_value (arg_fuel s5) tb s5 ln5; let '(v1, s6, ln6) := r in
+    let '(s7, ln7) := skip_space s6 ln6 in
+    if eq_char s7 44 then
+      let '(s8, ln8) := skip_space (tl s7) ln7 in
+      do r2 <- read_arg_value (arg_fuel s8) tb s8 ln8; let '(v2, s9, ln9) := r2 in
+      Ok (TDecresc len (aval_to_i v1) (aval_to_i v2), s9, ln9)
+    else Ok (TDecresc len (aval_to_i v1) d2, s7, ln7)
+  else Ok (TDecresc len d1 d2, s4, ln4).
 
 (* read_rpn_command / read_nrpn_command *)
 Definition read_rpn_command (ls : lexstate) (nrpn : bool) (msb lsb : Z) (s : list ch) (ln : Z) : res rd_out :=
@@ -537,6 +661,10 @@ Definition read_ext_command (ls : lexstate) (ttype : list ch) (argt tag1 tag2 : 
       do r <- read_pitch_bend 1 (lx_timebase ls) s ln; let '(t, s1, ln1) := r in Ok (Some t, s1, ln1, ls)
     else if list_eqb ttype (zs "RPNCommand") then read_rpn_command ls false tag1 tag2 s ln
     else if list_eqb ttype (zs "NRPNCommand") then read_rpn_command ls true tag1 tag2 s ln
+    else if list_eqb ttype (zs "FadeIO") then
+      do r <- read_fadein tag1 (lx_timebase ls) s ln; let '(t, s1, ln1) := r in Ok (Some t, s1, ln1, ls)
+    else if list_eqb ttype (zs "Cresc") then
+      do r <- read_decres tag1 (lx_timebase ls) s ln; let '(t, s1, ln1) := r in Ok (Some t, s1, ln1, ls)
     else Unsupported U_UPPER
   else Unsupported U_UPPER.
 
@@ -582,17 +710,20 @@ Fixpoint lex_f (fuel : nat) (ls : lexstate) (src : list ch) (lineno : Z) : res l
            let tb := lx_timebase ls in
            let push (x : res (tok * list ch * Z)) : res lex_out :=
              do y <- x; let '(t, s', ln') := y in loop n' ls s' ln' harmony (acc ++ [t]) in
+           let pusho (x : res (option tok * list ch * Z)) : res lex_out :=
+             do y <- x; let '(ot, s', ln') := y in
+             loop n' ls s' ln' harmony (match ot with Some t => acc ++ [t] | None => acc end) in
            if (c =? 32) || (c =? 9) || (c =? 13) || (c =? 124) || (c =? 59) then loop n' ls r ln harmony acc
            else if c =? 10 then loop n' ls r (ln + 1) harmony (acc ++ [TLineNo (ln + 1)])
            else if (c =? 99) || (c =? 100) || (c =? 101) || (c =? 102) || (c =? 103) || (c =? 97) || (c =? 98) then
              push (Ok (read_note c r ln))
            else if c =? 110 then push (read_note_n tb r ln)
            else if c =? 114 then push (Ok (read_rest r ln))
-           else if c =? 108 then push (read_length r ln)
-           else if c =? 111 then push (read_octave tb r ln)
+           else if c =? 108 then pusho (read_length tb r ln)
+           else if c =? 111 then pusho (read_octave tb r ln)
            else if ((c =? 113) || (c =? 118)) && negb (prefixb (zs "Add") r || ((c =? 113) && prefixb (zs "2Add") r)) then
-             (if c =? 113 then push (read_qlen tb r ln) else push (read_velocity tb r ln))
-           else if c =? 116 then push (read_timing tb r ln)
+             (if c =? 113 then pusho (read_qlen tb r ln) else pusho (read_velocity tb r ln))
+           else if c =? 116 then pusho (read_timing tb r ln)
            else if c =? 112 then push (read_pitch_bend 0 tb r ln)
            else if c =? 121 then
              do ra <- read_cc ls false r ln;
